@@ -238,4 +238,9 @@ func init() {
 
 	mut("C08", "the update flag is raised before the state is published", "core/pkg/distribution/framer/codec/codec.go",
 		"	c.mu.updates <- s\n	c.mu.updateAvailable.Store(true)\n}", "	c.mu.updateAvailable.Store(true)\n	c.mu.updates <- s\n}", "C08.R7.publish")
+
+	mut("C18", "deleting a role leaves its ontology resource and edges behind", "core/pkg/service/access/rbac/role/writer.go",
+		"	return w.otg.DeleteResource(ctx, OntologyID(key))\n}", "	return nil\n}", "C18.R3.resource")
+	mut("C18", "deleting policies leaves their ontology resources behind", "core/pkg/service/access/rbac/policy/writer.go",
+		"	return w.otg.DeleteManyResources(ctx, OntologyIDs(keys))\n}", "	return nil\n}", "C18.R3.resource")
 }
